@@ -29,7 +29,8 @@ REDIRECT_STEMS = ("redir", "url", "uri", "link", "target", "goto", "next", "dest
 
 # "AMP / Marfeel cache path": the cache hosts '<x>.ampproject.org', 'bc.marfeelcache.com', 'bc.marfeel.com' (any occurrence, any case, with or without a port);
 # a look-alike ('bc-marfeel.com', 'ampproject.org' without a label in front) is not a cache
-CACHE_MARK_RE = re.compile(r"\.ampproject\.org(?::\d*)?/[cv]/|bc\.marfeelcache\.com(?::\d*)?/amp/|bc\.marfeel\.com(?::\d*)?/", re.I)
+# ... 'bc' is a whole label: 'abc.marfeel.com', 'x-bc.marfeel.com' are other hosts; letters are ASCII letters ('/c/' is not matched by a look-alike)
+CACHE_MARK_RE = re.compile(r"\.ampproject\.org(?::\d*)?/[cv]/|(?<![0-9A-Za-z_])bc\.marfeelcache\.com(?::\d*)?/amp/|(?<![0-9A-Za-z_])bc\.marfeel\.com(?::\d*)?/", re.I | re.A)
 
 # a parameter name starts the string or follows '?' / '&', and contains none of ? & / # =
 _KEY_RE = re.compile(r"(?:^|(?<=[?&]))([^?&/#=]+)=")
@@ -158,7 +159,9 @@ def provenance_ok(s, result):
             if not alts or raw.startswith("/") or raw.lower().startswith("%2f"):
                 undecidable = True      # a relative target with undecodable bytes: joined, no verdict
             continue
-        if result == dec or result == "https://" + dec or result == "http://" + dec:
+        # a scheme-less target may be completed with a scheme; a value that already IS an absolute http(s) URL is the target as it stands
+        absolute = any(dec.startswith(pre) and len(dec) > len(pre) for pre in ("https://", "http://"))
+        if result == dec or (not absolute and (result == "https://" + dec or result == "http://" + dec)):
             return True
         decs.append(dec)
     for tail in cache_tails(s):
